@@ -87,6 +87,7 @@ public:
     try
     {
       load();
+      truncateTornLogTail();
       openLogFile();
       if (_config.enableBackgroundCompaction)
       {
@@ -1119,6 +1120,27 @@ private:
            out.write(reinterpret_cast<const char *>(value.data()), valLen);
   }
 
+  /// \brief Cut off an incomplete (or unreadable) record that a crash left at
+  /// the end of the log. load() stops replaying at such a record, and the log is
+  /// reopened in APPEND mode: without the cut every record written from now on
+  /// would sit behind the torn bytes and be unreadable at the next load, i.e.
+  /// acknowledged writes of this session would be lost. Runs between load() and
+  /// openLogFile() in the constructor.
+  void truncateTornLogTail()
+  {
+    if (!_logHasTornTail)
+    {
+      return;
+    }
+    std::error_code ec;
+    std::filesystem::resize_file(_logPath, _logValidBytes, ec);
+    if (ec)
+    {
+      throw KVStoreException("Failed to truncate torn log tail: " + ec.message());
+    }
+    _logHasTornTail = false;
+  }
+
   void openLogFile()
   {
     _logStream.open(_logPath, std::ios::binary | std::ios::app);
@@ -1314,6 +1336,8 @@ private:
   void load()
   {
     const auto now = std::chrono::system_clock::now();
+    _logValidBytes = 0;
+    _logHasTornTail = false;
 
     // Load snapshot with robust error handling
     std::ifstream snapshot(_path, std::ios::binary);
@@ -1422,14 +1446,19 @@ private:
       if (!log.read(reinterpret_cast<char *>(&totalLen), sizeof(totalLen)) || totalLen < 10 ||
           totalLen > 100 * 1024 * 1024)
       {
+        _logHasTornTail = true;
         break; // Invalid or corrupted entry
       }
 
       std::vector<std::uint8_t> buffer(totalLen);
       if (!log.read(reinterpret_cast<char *>(buffer.data()), totalLen))
       {
+        _logHasTornTail = true;
         break; // Incomplete entry
       }
+      // End of the last record that was read completely (whether or not it then
+      // passes validation): everything up to here stays in the log.
+      _logValidBytes = static_cast<std::uintmax_t>(log.tellg());
 
       if (!validateLogEntry(buffer, totalLen))
       {
@@ -1660,6 +1689,8 @@ private:
 
   // File streams
   std::ofstream _logStream;
+  std::uintmax_t _logValidBytes = 0; // set by load(): end of the last complete log record
+  bool _logHasTornTail = false;      // set by load(): replay stopped at an incomplete record
 
   // Data storage
   std::unordered_map<std::string, std::vector<std::uint8_t>> _kv;
